@@ -46,7 +46,7 @@ C12 = dict(
     theorems=[("C12", t) for t in [
         "C12_finish_appends_one_end", "C12_declared_locals_exact", "C12_type_table_invariant", "C12_build_step_exact", "C12_function_section_exact",
         "C12_built_function_emitted", "C12_agree_is_equality", "C12_checker_sound_first_build",
-        "C12_build_needs_balance", "C12_base_balanced", "C12_D08_build_panics_after_conversion"]],
+        "C12_build_needs_balance", "C12_base_balanced", "C12_balance_kept_by_every_call", "C12_finish_module_never_fails"]],
     quick=dict(n=1000), thorough=dict(n=30000), per_shard=100,
     rule="generated valid base modules (1-3 pairwise distinct function types, 0-3 imports of four kinds, 1-3 local functions with declared local groups and optional names) and histories of 1-6 operations: "
          "FunctionBuilder::new with random signatures (0-3 params, 0-2 results over i32 i64 f32 f64 v128 funcref externref (ref func) (ref extern), a quarter of them a signature already in the type section), "
@@ -58,14 +58,14 @@ C12 = dict(
     level_text="Proof (Coq, all signatures / local lists / instruction sequences / histories, no bound): finish appends exactly one End and keeps the name; the local groups expand to the requested list with consecutive ids "
                "(from the C14 theorems); the type stored at the function's type id is the requested signature for every hash order of the parsed types (from the C13 dedup theorems); one build appends exactly one function "
                "item whose id is returned; the model's function/code sections are the stored payloads, so a built function is emitted with exactly the requested types, locals and body ++ [end] wherever the index space puts "
-               "it, and -- agree being equality -- so is it in the observed output; D08 as a theorem (finish_module succeeds iff the module is balanced; after a conversion every later build panics). Partial for the index-space "
-               "part (returned id and name refer to the function after import additions / deletions): decided per history in Coq on the decoded real output; known classes D08, D02 (D06 -- a deleted added import stayed in the index space -- is repaired).",
+               "it, and -- agree being equality -- so is it in the observed output; finish_module succeeds iff functions.len() = num_local_functions + imports.num_funcs, every parsed module satisfies it and every API call keeps it (convert_local_fn_to_import takes one off num_local_functions since the repair of D08), so finish_module never fails after any history. Partial for the index-space "
+               "part (returned id and name refer to the function after import additions / deletions): decided per history in Coq on the decoded real output; known class D02 (D06 -- a deleted added import stayed in the index space -- and D08 -- finish_module panicked after a conversion -- are repaired).",
     level_note=NOTE, trusted_base=TB12,
     technique="Coq theorems over a hand-written model (reusing the C13 / C14 developments) + independent executable specification evaluated in Coq on the real decoded output + refutation witness",
     design_ref="5/C12", harness_prop="C12",
     modelled="FunctionBuilder, add_local_func_with_tag, function / code / name section emission, function index space (shared with the re-indexing engine)",
     assumptions=["operators are compared as (mnemonic, immediates) tokens; the request token comes from the helper's name, the observed token from the decoded wasmparser operator (two independent tables in the harness)",
-                 "a finish_module that panics is inside the domain and counts as a failure (D08); histories in which another API call panics are outside the domain",
+                 "a finish_module that panics is inside the domain and counts as a failure; histories in which another API call panics are outside the domain",
                  "a `call` of a deleted function must make encode fail loudly; a failure inside a known class is excused only if the implementation's output equals the mirror model's prediction",
                  "the built bodies contain no references to functions / globals / memories (those are the subject of C06-C08)"])
 PROPS = {"C30": C30, "C12": C12}
